@@ -443,6 +443,31 @@ func TestC10(t *testing.T) {
 				return
 			}
 		}
+		// header-level malformations: unknown / unregistered compression, missing settings, wrong magic
+		for hi, hdr := range []*pwr.PatchHeader{
+			{Compression: &pwr.CompressionSettings{Algorithm: pwr.CompressionAlgorithm(7)}},
+			{Compression: &pwr.CompressionSettings{Algorithm: pwr.CompressionAlgorithm_ZSTD}},
+			{Compression: nil},
+			{Compression: &pwr.CompressionSettings{Algorithm: pwr.CompressionAlgorithm_GZIP, Quality: 1 << 30}},
+			{Compression: &pwr.CompressionSettings{Algorithm: pwr.CompressionAlgorithm_BROTLI, Quality: -5}},
+		} {
+			// body stays uncompressed: the header lies about it
+			var buf bytes.Buffer
+			raw := wire.NewWriteContext(&buf)
+			magic := int32(MagicPatch)
+			if hi == 4 {
+				magic = MagicSignature
+			}
+			Must(raw.WriteMagic(magic), "magic")
+			Must(raw.WriteMessage(hdr), "header")
+			for _, m := range msgs {
+				Must(raw.WriteMessage(m), "message")
+			}
+			Ev.Fault("header_mutated", 1)
+			if runPatchSubjects(buf.Bytes(), fmt.Sprintf("header variant %d (%v), uncompressed body", hi, hdr.Compression), false) {
+				return
+			}
+		}
 		// signatures with fewer / more hashes
 		rs, err := DecodeSignature(sig)
 		if err == nil {
